@@ -222,6 +222,15 @@ def check_props(pid, allowed_axioms=(), thorough=False):
                 os.remove(vo)
             t0 = time.time()
             out = sh(["make", "-j%d" % NPROC, vfile + "o"], cwd=COQ, timeout=3000)
+            # when /repo changed (regenerated Gen/*.v) or in the thorough tier, files of the cone were rebuilt
+            # in the same make and their own Print Assumptions output is mixed in: compile the property file
+            # once more, alone, and parse that output only
+            others = [l for l in out.splitlines() if l.startswith("COQC ") and l.split()[1] != vfile]
+            if others:
+                res["cone_rebuilt"] = len(others)
+                if os.path.exists(vo):
+                    os.remove(vo)
+                out = sh(["make", "-j%d" % NPROC, vfile + "o"], cwd=COQ, timeout=3000)
             res["coq_wall_s"] = round(time.time() - t0, 1)
     except BuildError as e:
         res["problems"].append("proof obligation does not check: " + str(e)[-1500:])
